@@ -124,6 +124,7 @@ def build_input(root, case, ch):
 
     expected = []
     also_missing_elsewhere = False
+    shadow_root = None
     for f in configured:
         p = PKG[f]
         path = f"{MOD}/{p}"
@@ -198,13 +199,32 @@ def build_input(root, case, ch):
                      {"config": {"include-interface-regex": ".*"}} if cls == "pkg-missing-regex" else \
                      {"interfaces": {"Ghost": {}}}
             elif cls == "pkg-typeerr":
+                # v1, v3: the error sits in a function body / an initialiser, the interfaces themselves stay usable
                 files[f"{p}/src.go"] += ["\ntype Broken interface{ M() undefinedType }\n", "\nvar _ int = \"string\"\n",
-                                         "\nfunc dup() {}\nfunc dup() {}\n", "\ntype Loop struct{ L Loop }\n"][v]
+                                         "\nfunc dup() {}\nfunc dup() {}\n",
+                                         "\nfunc brokenBody() int {\n\tvar x int = \"s\"\n\treturn x + undefinedName\n}\n"][v]
             elif cls == "pkg-parseerr":
                 files[f"{p}/src.go"] += ["\ntype Broken interface{ M(x int string }\n", "\nfunc (\n", "\n}}}\n", "\ntype = 3\n"][v]
             elif cls == "pkg-importerr":
                 files[f"{p}/extra.go"] = f"package {p}\n\nimport _ \"{MOD}/does/not/exist\"\n" if v % 2 == 0 else \
                     f"package {p}\n\nimport \"{MOD}/{p}/sub\"\n\nvar _ sub.Missing\n"
+            elif cls == "cyclic-shadowed":
+                # a cyclic value at the fault's level which EVERY level below overrides: no mock uses it
+                cyc = {"structname": ["Fake{{.StructName}}", "{{.StructName}}Y"][v % 2]}
+                over = {"structname": "Over{{.InterfaceName}}"}
+                if v >= 2:      # a second parameter drawn into the cycle
+                    cyc["filename"] = "m_{{.StructName}}.go"
+                    over["filename"] = conf["filename"]
+                if level == "root":
+                    conf.update(cyc)
+                    shadow_root = over
+                elif level == "pkg":
+                    pc.setdefault("config", {}).update(cyc)
+                    pc["config"].pop("all", None)
+                    pc["interfaces"] = {n: ({"config": dict(over)} if v % 2 == 0 else {"configs": [dict(over)]}) for n in IFACES[f]}
+                else:
+                    pc["interfaces"] = {n: {} for n in IFACES[f]}
+                    pc["interfaces"][x] = {"config": dict(cyc), "configs": [dict(over, structname="Over" + x), dict(over, structname="Other" + x)]}
             elif cls == "conflict-srcpkg":
                 pass        # handled below (needs two packages)
             elif cls == "conflict-pkgname":
@@ -222,6 +242,37 @@ def build_input(root, case, ch):
             files[out] = user_content(f, ch["layout"])
         if w["force"][f]:
             conf["force-file-write"] = True
+    if cls == "cyclic-shadowed":     # the overriding struct names are what a successful run writes
+        vx = IFACES[victim][v % 2]
+        def over_names(path_struct):
+            rel, st = path_struct
+            n = st[len("Mock"):]
+            mine = n in IFACES[victim]
+            if level == "root" or (level == "pkg" and mine):
+                return [(rel, "Over" + n)]
+            if level == "iface" and n == vx:
+                return [(rel, "Over" + n), (rel, "Other" + n)]
+            return [(rel, st)]
+        expected = [e for ps in expected for e in over_names(ps)]
+    if shadow_root:                  # every configured package overrides the top-level cyclic value
+        for pth, pcfg in conf["packages"].items():
+            if pcfg is None:
+                pcfg = conf["packages"][pth] = {}
+            pcfg.setdefault("config", {}).update(shadow_root)
+    feature = fl.get("feature", "-")
+    if victim is not None and feature != "-":
+        # an unusual-but-valid trait of the very package the fault sits in
+        p = PKG[victim]
+        files.update({
+            "goos-file": {f"{p}/x_plan9.go": f"package {p}\n\nconst OnPlan9 = true\n"},
+            "tools-tag-file": {f"{p}/tools.go": f"//go:build tools\n\npackage {p}\n\nimport _ \"fmt\"\n"},
+            "ignored-file": {f"{p}/gen.go": "//go:build ignore\n\npackage main\n\nfunc main() {}\n"},
+            "test-file": {f"{p}/x_test.go": f"package {p}\n\nvar inTest = 1\n", f"{p}/y_test.go": f"package {p}_test\n"},
+            "line-directive": {f"{p}/ld.go": f"package {p}\n\n//line elsewhere.y:10\nconst FromY = 1\n"},
+            "generated-header": {f"{p}/zz_generated.go": f"// Code generated by some-other-tool. DO NOT EDIT.\n\npackage {p}\n\nconst Gen = 1\n"},
+            "cgo-free-generated": {f"{p}/zz_stringer.go": f"// Code generated by \"stringer -type=K\"; DO NOT EDIT.\n\n//go:build !cgo || cgo\n\npackage {p}\n\nconst K = 1\n",
+                                   f"{p}/x_windows_arm64.go": f"package {p}\n\nconst Win = 1\n"},
+        }[feature])
     if also_missing_elsewhere:       # the same class in a second package
         conf["packages"][f"{MOD}/pb"].setdefault("interfaces", {})["AlsoMissing"] = {}
     if cls == "conflict-srcpkg":
@@ -252,13 +303,13 @@ def replay_input(ctx, item, runs, runlock):
         runs.append((r, item["id"]))
     if r.timed_out:
         raise MachineryError(f"mockery timed out on case {item['id']}")
-    sig0 = {"class": fl["class"], "level": fl["level"], "pos": fl["pos"], "ctx": fl["ctx"]}
+    sig0 = {"class": fl["class"], "level": fl["level"], "pos": fl["pos"], "ctx": fl["ctx"], "feature": fl.get("feature", "-")}
     detail = {"case": case, "choices": ch, "config": conf, "run": r.brief()}
     out = []
     if r.panicked:
         out.append((dict(sig0, kind="panic"), detail))
     got = "zero" if r.code == 0 else "nonzero"
-    if got != exp["exit"]:
+    if exp["exit"] != "any" and got != exp["exit"]:
         out.append((dict(sig0, kind="exit-status", expected=exp["exit"], got=got), detail))
     if r.code != 0 and not has_diagnostic(r):
         out.append((dict(sig0, kind="no-diagnostic"), detail))
@@ -281,7 +332,7 @@ def replay_input(ctx, item, runs, runlock):
         shutil.rmtree(d, ignore_errors=True)
     order = [e["file"] for e in r.trace if e.get("ev") == "FileBegin"]
     nwritten = sum(1 for e in r.trace if e.get("ev") == "Write")
-    return out, {"id": item["id"], "fault": {k: fl[k] for k in ("class", "level", "pos", "ctx")}, "exit": r.code, "expected": exp["exit"],
+    return out, {"id": item["id"], "fault": {k: fl.get(k, "-") for k in ("class", "level", "pos", "ctx", "feature")}, "exit": r.code, "expected": exp["exit"],
                  "files_begun": len(order), "files_written": nwritten, "diagnostic_tail": (r.err + r.out).strip().splitlines()[-1:]}
 
 
@@ -429,6 +480,16 @@ def decl_text(kind, i):
         txt = f"func G{i}[T any](x T) {{\n\ttype W{i} interface{{ G(T) }}\n\tvar _ W{i}\n\t_ = x\n}}"
     elif kind == "local-shadows-struct":
         txt = f"type {T} struct{{}}\n\nfunc F{i}() {{\n\ttype {T} interface{{ Z() }}\n\tvar _ {T}\n}}"
+    elif kind == "goos-file":
+        txt = ""
+        extra[f"ps/x{i}_plan9.go"] = f"package ps\n\ntype {T} interface{{ M() }}\n"
+    elif kind == "iface-in-generated-file":
+        txt, mock = "", T
+        extra[f"ps/zz_generated{i}.go"] = f"// Code generated by some-other-tool v1.2.3. DO NOT EDIT.\n\npackage ps\n\ntype {T} interface{{ M() }}\n"
+    elif kind == "iface-in-generated-file-blockcomment":
+        txt, mock = "", T
+        extra[f"ps/pb{i}.pb.go"] = (f"// Code generated by protoc-gen-go. DO NOT EDIT.\n// source: x{i}.proto\n\n/*\nPackage ps is generated.\n*/\npackage ps\n\n"
+                                    f"// {T}Server is the server API.\ntype {T} interface{{ M() }}\n")
     elif kind == "tag-off":
         txt = ""
         extra[f"ps/off{i}.go"] = f"//go:build !vtag\n\npackage ps\n\ntype {T} interface{{ M() }}\n"
@@ -499,6 +560,17 @@ GOMOD = {
     "plain": "module example.com/w\n", "tab": "module\texample.com/w\n", "quoted": 'module "example.com/w"\n',
     "comment": "module example.com/w // the module\n", "block": "module (\n\texample.com/w\n)\n",
     "block-comment": "// leading comment\nmodule ( // why not\n\texample.com/w // here\n)\n", "crlf": "module example.com/w\r\n",
+    "v2": "module example.com/w/v2\n",
+}
+# go.mod files for the output directory (nested module) -- with and without a module directive
+NESTED = {
+    "empty": "", "whitespace-only": "\n\n  \t\n", "comment-only": "// this directory is not part of the module\n", "go-only": "go 1.23\n",
+    "toolchain-only": "go 1.23\n\ntoolchain go1.23.7\n", "require-only": "go 1.23\n\nrequire github.com/stretchr/testify v1.10.0\n",
+    "replace-only": "replace example.com/a => ../a\n", "exclude-only": "exclude example.com/a v1.0.0\n", "retract-only": "retract v1.0.0 // oops\n",
+    "bom-module": "\ufeffmodule example.com/nested\n",
+    "module-plain": "module example.com/nested\n\ngo 1.23\n", "module-last": "go 1.23\n\nrequire example.com/a v1.0.0\n\nmodule example.com/nested\n",
+    "module-v2": "module example.com/nested/v2\n\ngo 1.23\n", "module-crlf": "module example.com/nested\r\n\r\ngo 1.23\r\n",
+    "module-quoted": 'module "example.com/nested"\n', "module-block": "module (\n\texample.com/nested\n)\n", "module-only-no-go": "module example.com/nested",
 }
 
 
@@ -512,7 +584,7 @@ def build_valid(case):
     gomod = None
     expected = [("mocks/ps/mocks.go", "MockAnchor")]
     named = ["Anchor"]
-    if w["kind"] in ("decls", "gomod", "cfgshape"):
+    if w["kind"] in ("decls", "gomod", "cfgshape", "gomod-nested", "gomod-root-nomodule"):
         body, imports = [], set()
         for i, k in enumerate(w["decls"], start=1):
             txt, extra, imps, mock = decl_text(k, i)
@@ -530,7 +602,26 @@ def build_valid(case):
         files["ps/decls.go"] = "package ps\n\n" + imp + "\n" + "\n\n".join(body) + "\n"
         if w.get("select", "all") != "all":       # by name (the must-declarations) / only the anchor: the rest is parsed, not selected
             conf["packages"][f"{MOD}/ps"] = {"interfaces": {n: {} for n in named}}
-    if w["kind"] == "gomod":
+    if w["kind"] == "gomod-nested":
+        files["mocks/go.mod"] = NESTED[w["shape"]]
+    if w["kind"] == "gomod-root-nomodule":
+        gomod = {"empty": "", "comment-only": "// no module here\n", "go-only": "go 1.23\n"}[w["shape"]]
+    if case["expect"]["exit"] != "zero":
+        expected = []
+    if w["kind"] == "gomod" and w["spelling"] in ("module-last", "many-directives", "v2"):
+        rest = GO_SUM_MOD.replace("module example.com/w\n", "")
+        if w["spelling"] == "module-last":
+            gomod = rest + "\nmodule example.com/w\n"
+        elif w["spelling"] == "many-directives":
+            gomod = ("// Deprecated: not really\nmodule example.com/w\n" + rest + "\ntoolchain go1.23.7\n\nreplace example.com/unused => ./unused\n\n"
+                     "exclude example.com/unused v0.0.1\n\nretract (\n\tv0.0.1 // first\n\t[v0.1.0, v0.2.0]\n)\n")
+        else:
+            gomod = GOMOD["v2"] + rest
+            conf["packages"] = {f"{MOD}/v2/ps": conf["packages"][f"{MOD}/ps"]}
+        if w["layout"] == "inpkg":
+            conf.update({"dir": "{{.InterfaceDir}}", "filename": "mocks_gen.go", "pkgname": "{{.SrcPackageName}}"})
+            expected = [("ps/mocks_gen.go", s_) for _, s_ in expected]
+    elif w["kind"] == "gomod":
         gomod = GO_SUM_MOD.replace("module example.com/w\n", GOMOD[w["spelling"]])
         if w["spelling"] == "crlf":
             gomod = gomod.replace("\n", "\r\n")
@@ -627,6 +718,8 @@ def replay_valid(ctx, item, runs, runlock):
     out = []
     if r.panicked:
         out.append((dict(sig0, kind="panic", decl=next((k for k in kinds if k.startswith(("local", "alias", "defined")) or "shadow" in k), kinds[0] if kinds else "-")), detail))
+    if r.code == 0 and exp["exit"] == "nonzero":
+        out.append((dict(sig0, kind="exit-status", expected="nonzero", got="zero"), detail))
     if r.code != 0 and exp["exit"] == "zero":
         # which declaration kind is it?  (single-kind worlds identify it; otherwise report the list)
         out.append((dict(sig0, kind="valid-input-rejected", decl=kinds[0] if len(set(kinds)) == 1 else "+".join(sorted(set(kinds)))), detail))
@@ -697,9 +790,15 @@ def run(ctx):
             "conflict-srcpkg", "conflict-pkgname", "conflict-template", "-"}
     if not need <= classes:
         raise MachineryError(f"vacuous: classes never exported: {sorted(need - classes)}")
+    undecided = [c for c in cases if c["expect"]["exit"] == "any"]
+    if any(c["world"]["fault"]["class"] != "cyclic-shadowed" or c["world"]["fault"]["level"] == "pkg" for c in undecided):
+        raise MachineryError("contract export broken: only a shadowed cycle at top or interface level may be left undecided")
     if not any(c["expect"]["exit"] == "zero" for c in cases) or not all(
-            c["expect"]["exit"] == "nonzero" for c in cases if c["world"]["fault"]["kind"] == "input"):
+            c["expect"]["exit"] == "nonzero" for c in cases if c["world"]["fault"]["kind"] == "input" and c not in undecided):
         raise MachineryError("contract export broken: the fault-free world must expect exit 0 and every invalid input a non-zero exit")
+    if not any(c["world"]["fault"]["class"] == "cyclic-shadowed" and c["expect"]["exit"] == "nonzero" for c in cases) or \
+            len({c["world"]["fault"]["feature"] for c in cases}) < 8:
+        raise MachineryError("vacuous: no shadowed cycle that must fail / package faults are not combined with package features")
     for lv in ("root", "pkg", "iface", "entry"):
         if not any(c["world"]["fault"]["level"] == lv for c in cases):
             raise MachineryError("vacuous: level never used: " + lv)
